@@ -994,6 +994,17 @@ def _calendar_battery(c, p, f, k, pk):
         if ok:
             _law(c, "tiling", _dt.date(*ymd["end"]) + cal.ONE_DAY == _dt.date(*nxt), f"{f}|{pk}",
                  lambda: f"({f},{k}) ends {ymd['end']}, next period starts {nxt}", f)
+    # tiling seen from the calendar side: the first and the last day of p belong to p, the day before to p-1, the day after
+    # to p+1 (every day lies in exactly one period) -- read through the public day -> period constructor
+    if f in cal.REGULAR and cal.in_calendar(f, k - 1) and cal.in_calendar(f, k + 1):
+        P = _S["Period"]
+        fr = p.frequency
+        d0, d1 = cal.first_day(f, k), cal.last_day(f, k)
+        for day, want_k, what in ((d0, k, "first"), (d1, k, "last"), (d0 - cal.ONE_DAY, k - 1, "day-before"), (d1 + cal.ONE_DAY, k + 1, "day-after")):
+            ok, q_ = _try(c, "from_ymd", lambda: P.from_ymd(fr, day.year, day.month, day.day), f)
+            if ok:
+                _law(c, "tiling:day-belongs-to-one-period", _abs(q_) == (f, want_k), f"{f}|{what}|{pk}",
+                     lambda: f"{day.isoformat()} ({what} of ({f},{k})) is assigned to {_abs(q_)}, the calendar says ({f},{want_k})", f)
     if "start" in ymd and "end" in ymd and "middle" in ymd:
         _law(c, "start<=middle<=end", ymd["start"] <= ymd["middle"] <= ymd["end"], f"{f}|{pk}", lambda: f"({f},{k}) {ymd}", f)
     for kw in ("yoy", "soy", "boy", "eopy", "tty"):
@@ -1204,8 +1215,19 @@ def _run_span_history(c, case):
             return [x[0], x[1] + by] if isinstance(x, list) else x + by
         if concrete():
             _observe_span(c, span, (m_start, m_end, step), f, ints, "initial")
+        # every object an operation was applied to in functional form (resolve, reversed, +, -, >>, copy) stays what it was,
+        # whatever is done later to the object that operation returned (added after a seeded change made resolve() return
+        # the receiver itself for fully specified spans)
+        ancestors = []
+        def snap(x):
+            try:
+                body = None if x.needs_resolve else tuple(repr(p_) for p_ in list(x)[:60])
+            except Exception:
+                body = "?"
+            return (repr(x.start), repr(x.end), x.step, body)
         for op in case["ops"]:
             name, arg = op[0], (op[1] if len(op) > 1 else None)
+            prev_obj, prev_snap = span, snap(span)
             if name == "shift":
                 ok, _ = _try(c, "span.shift", lambda: span.shift(arg), f)
                 m_start, m_end = bump(m_start, arg), bump(m_end, arg)
@@ -1262,6 +1284,12 @@ def _run_span_history(c, case):
                 raise ValueError(name)
             if not ok:
                 return
+            if name in ("resolve", "reversed", "add", "radd", "sub", "restep", "copy"):
+                # functional forms: what they were applied to is remembered even when the very same object came back
+                ancestors.append((prev_obj, prev_snap, name))
+            for obj, s0, how in ancestors:
+                _law(c, "span:earlier-object-unchanged-by-later-operations", snap(obj) == s0, f"{how}|{name}|{f}",
+                     lambda: f"the span {how}() was applied to was {s0[:3]} and is now {snap(obj)[:3]} after {name}", "", True)
             if concrete():
                 _observe_span(c, span, (m_start, m_end, step), f, ints, name)
                 ints = ints[1:] + ints[:1]
@@ -1297,6 +1325,8 @@ def _random_history(rng, tier):
     n_ops = int(rng.integers(1, 13))
     names = ["shift", "shift_start", "shift_end", "reverse", "reversed", "add", "radd", "sub", "restep", "copy"]
     resolve_at = int(rng.integers(0, n_ops)) if open_ended else -1
+    if not open_ended and rng.random() < 0.4:
+        resolve_at = int(rng.integers(0, n_ops))   # resolving a fully specified span: a no-op that must still return a new object
     for i in range(n_ops):
         if i == resolve_at:
             lo, hi = min(s, e), max(s, e)
